@@ -255,7 +255,10 @@ impl Mesh {
 struct MeshNearCheck<'a> {
     this_mesh: &'a Mesh,
     ref_mesh: &'a Mesh,
-    checked: HashMap<u32, bool>,
+
+    /// The part of the check which only depends on the vertex: `None` if the vertex fails the
+    /// distance or planar tolerance, otherwise the normal of the reference triangle it projects to
+    checked: HashMap<u32, Option<UnitVec3>>,
     distance_tol: f64,
     planar_tol: Option<f64>,
     angle_tol: Option<f64>,
@@ -279,52 +282,62 @@ impl<'a> MeshNearCheck<'a> {
         }
     }
 
-    fn store_and_return(&mut self, vertex_index: u32, result: bool) -> bool {
+    /// Project a vertex onto the reference mesh and apply the distance and planar tolerances. The
+    /// result does not depend on which face the vertex is being checked for, so it is remembered.
+    fn vertex_check(&mut self, vertex_index: u32) -> Option<UnitVec3> {
+        if let Some(&checked) = self.checked.get(&vertex_index) {
+            return checked;
+        }
+
+        let p = self.this_mesh.vertices()[vertex_index as usize];
+        let result = if let Some((prj, ri, _loc)) =
+            self.ref_mesh.project_with_max_dist(&p, self.distance_tol)
+        {
+            if let Some(rn) = self.ref_mesh.shape.triangle(ri).normal() {
+                // We need to get the normal of the reference triangle
+                let rsp = SurfacePoint3::new(prj.point, rn);
+
+                let check_planar = if let Some(planar_tol) = self.planar_tol {
+                    rsp.planar_distance(&p) <= planar_tol
+                } else {
+                    true
+                };
+
+                if check_planar {
+                    Some(rn)
+                } else {
+                    None
+                }
+            } else if self.planar_tol.is_none() && self.angle_tol.is_none() {
+                // Only the distance matters, the degenerate reference triangle is good enough
+                Some(UnitVec3::new_unchecked(Vector3::z()))
+            } else {
+                None
+            }
+        } else {
+            None
+        };
+
         self.checked.insert(vertex_index, result);
         result
     }
 
     fn near_check(&mut self, vertex_index: u32, face_normal: Option<UnitVec3>) -> bool {
-        if let Some(&checked) = self.checked.get(&vertex_index) {
-            checked
-        } else {
-            let p = self.this_mesh.vertices()[vertex_index as usize];
-
-            let is_ok = if let Some((prj, ri, _loc)) =
-                self.ref_mesh.project_with_max_dist(&p, self.distance_tol)
-            {
-                if self.planar_tol.is_none() && self.angle_tol.is_none() {
-                    true
-                } else if let Some(rn) = self.ref_mesh.shape.triangle(ri).normal() {
-                    // We need to get the normal of the reference triangle
-                    let rsp = SurfacePoint3::new(prj.point, rn);
-
-                    let check_planar = if let Some(planar_tol) = self.planar_tol {
-                        rsp.planar_distance(&p) <= planar_tol
-                    } else {
-                        true
-                    };
-
-                    let check_angle = if let Some(angle_tol) = self.angle_tol {
-                        if let Some(face_normal) = face_normal {
-                            face_normal.angle(&rn) <= angle_tol
-                        } else {
-                            // No face normal, so we can't check the angle, assume it's bad?
-                            false
-                        }
-                    } else {
-                        true
-                    };
-
-                    check_planar && check_angle
+        if let Some(rn) = self.vertex_check(vertex_index) {
+            // The angle is between the reference triangle and the face the vertex is being checked
+            // for, so it is evaluated for every face
+            if let Some(angle_tol) = self.angle_tol {
+                if let Some(face_normal) = face_normal {
+                    face_normal.angle(&rn) <= angle_tol
                 } else {
+                    // No face normal, so we can't check the angle, assume it's bad?
                     false
                 }
             } else {
-                false
-            };
-
-            self.store_and_return(vertex_index, is_ok)
+                true
+            }
+        } else {
+            false
         }
     }
 }
